@@ -172,7 +172,7 @@ def check(repo: Repo, run: Run) -> None:
     bool_arm = [n for c, n in arms.items() if "BoolType" in c]
     ok = bool(bool_arm) and all(isinstance(r.value, (ast.IfExp, ast.Call, ast.Constant)) or "bool(" in ast.unparse(r) for r in bool_arm[0].body if isinstance(r, ast.Return))
     run.ob("C15.J3", "to_python|bool", bool(bool_arm), "BoolType is replaced by a native bool (never serialised as 1/0)", ad.loc(tp))
-    run.ob("C15.J3", "to_python|list", "[CELJSONEncoder.to_python(item) for item in cel_object]" in s or "to_python(item) for item in" in s, "lists recurse through to_python", ad.loc(tp))
+    run.shape("C15.J3", "to_python|list", "[CELJSONEncoder.to_python(item) for item in cel_object]" in s or "to_python(item) for item in" in s, "lists recurse through to_python", ad.loc(tp))
     mp = [n for c, n in arms.items() if "MapType" in c]
     okm = False
     if mp:
